@@ -2,7 +2,7 @@
 import os
 from . import core
 
-CFGS = ["sse2", "sse2-rel", "scalar", "coresimd", "fma"]
+CFGS = ["sse2", "sse2-rel", "scalar", "coresimd", "fma", "assert", "assert-scalar"]   # glam-assert builds: the algebra has no precondition
 
 
 def quat_cases(res, cfgs, prop=None):
@@ -17,7 +17,7 @@ def run(res, only=None):
     cfgs = [c for c in CFGS if not only or c in only]
     quat_cases(res, cfgs)
     # code -> spec on arbitrary unit quaternions: Hamilton product and rotation recorded per build, judged by TLC (Trace_Poly.tla)
-    core.record_and_validate(res, "poly", [c for c in cfgs if c != "sse2-rel"], draws=12 if res.tier == "quick" else 400, module="Trace_Poly",
+    core.record_and_validate(res, "poly", [c for c in cfgs if c not in ("sse2-rel", "assert", "assert-scalar")], draws=12 if res.tier == "quick" else 400, module="Trace_Poly",
                              chunks=1 if res.tier == "quick" else 8, expect_kinds=("poly",), ops=["quat_mul", "quat_rot"])
     # component-wise quaternion operations (+, -, negation, scalar * and /) on random bit patterns (Trace_Lanes.tla)
     core.record_and_validate(res, "mat", [c for c in cfgs if c in ("sse2", "scalar", "coresimd")], draws=3 if res.tier == "quick" else 60,
